@@ -550,6 +550,14 @@ class DiffXReader(object):
             line_endings, newline = guess_line_endings(content,
                                                        encoding=encoding)
 
+        if not content.endswith(newline):
+            # Check this before any indentation is stripped: a final line
+            # consisting of nothing but indentation would otherwise vanish
+            # and hide the missing newline.
+            raise DiffXParseError(
+                'Expected a newline after content',
+                linenum=self._linenum)
+
         lines = split_lines(data=content,
                             newline=newline,
                             keep_ends=True)
